@@ -161,6 +161,26 @@ pub fn version(p: u8) -> Version {
     Version::try_from(p as usize).expect("protocol 0..5")
 }
 
+/// the mutator list of a configuration (each wrapped in a recording Spy when `spy` is given)
+pub fn make_mutators(kinds: &[u8], unsafe_m: bool, spy: &Option<Arc<Mutex<Vec<SpyRec>>>>) -> Vec<Box<dyn Mutator>> {
+    kinds
+        .iter()
+        .enumerate()
+        .map(|(i, &k)| {
+            let inner = mutator_kind(k).create(unsafe_m);
+            match spy {
+                Some(log) => Box::new(Spy {
+                    inner,
+                    mi: i as u8,
+                    kind: k,
+                    log: log.clone(),
+                }) as Box<dyn Mutator>,
+                None => inner,
+            }
+        })
+        .collect()
+}
+
 /// Build the real generator for a configuration. `spy`: wrap every mutator in a recording Spy.
 pub fn build_generator(c: &Config, seed: Option<u64>, spy: Option<Arc<Mutex<Vec<SpyRec>>>>) -> Generator {
     let mut g = Generator::new(version(c.protocol));
@@ -171,24 +191,7 @@ pub fn build_generator(c: &Config, seed: Option<u64>, spy: Option<Arc<Mutex<Vec<
         g = g.with_seed(s);
     }
     if !c.mutators.is_empty() {
-        let muts: Vec<Box<dyn Mutator>> = c
-            .mutators
-            .iter()
-            .enumerate()
-            .map(|(i, &k)| {
-                let inner = mutator_kind(k).create(c.unsafe_mutations);
-                match &spy {
-                    Some(log) => Box::new(Spy {
-                        inner,
-                        mi: i as u8,
-                        kind: k,
-                        log: log.clone(),
-                    }) as Box<dyn Mutator>,
-                    None => inner,
-                }
-            })
-            .collect();
-        g = g.with_mutators(muts);
+        g = g.with_mutators(make_mutators(&c.mutators, c.unsafe_mutations, &spy));
     }
     if c.rate_via_field {
         g.mutation_rate = c.rate;
@@ -331,7 +334,8 @@ pub fn run_scenario(sc: &Scenario, trace: Trace, spy: bool) -> Vec<CallRecord> {
         _ => None,
     });
     let mut cfg = sc.config.clone();
-    let mut g = build_generator(&cfg, first_seed, if spy { Some(log.clone()) } else { None });
+    let spy_log = if spy { Some(log.clone()) } else { None };
+    let mut g = build_generator(&cfg, first_seed, spy_log.clone());
     let mut out = Vec::new();
     for (i, h) in sc.history.iter().enumerate() {
         match h {
@@ -352,6 +356,17 @@ pub fn run_scenario(sc: &Scenario, trace: Trace, spy: bool) -> Vec<CallRecord> {
                 g.mutation_rate = *r;
                 cfg.rate = *r;
                 cfg.rate_via_field = true;
+            }
+            HOp::SetUnsafe(u) => {
+                // what a caller switching modes does: the flag through the pub field and the
+                // mutators re-created for the new mode
+                g.unsafe_mutations = *u;
+                cfg.unsafe_mutations = *u;
+                g.mutators = make_mutators(&cfg.mutators, *u, &spy_log);
+            }
+            HOp::SetMutators(m) => {
+                cfg.mutators = m.clone();
+                g.mutators = make_mutators(&cfg.mutators, cfg.unsafe_mutations, &spy_log);
             }
             HOp::Gen(e) => {
                 match trace {
